@@ -893,6 +893,14 @@ def read_tangent(repo):
             return {"eigen.T": "T", "eigen.Ti": "Ti", "eigen.Ti.T": "TiT"}.get(S_dotted(n.args[0]))
         return None
 
+    def field_of(n):
+        f = field(n)
+        if f is not None:
+            return f
+        if isinstance(n, ast.Name) and n.id in obj and obj[n.id][0] == "FIELD":
+            return obj[n.id][1]
+        return None
+
     class TS(Sym):
         def ex(self, n):
             d = S_dotted(n)
@@ -909,8 +917,10 @@ def read_tangent(repo):
             return obj[n.id]
         if isinstance(n, ast.Name) and n.id == "C_e_pg":
             return ("C",)
+        if field(n) is not None:
+            return ("FIELD", field(n))
         if isinstance(n, ast.BinOp) and isinstance(n.op, ast.MatMult):
-            f = field(n.left)
+            f = field_of(n.left)
             if f == "T":
                 return ("Tv", scal(n.right))
             if f == "TiT":
@@ -926,7 +936,7 @@ def read_tangent(repo):
             fail(n, "matrix product of %s and %s" % (L[0], R[0]), rel)
         if isinstance(n, ast.BinOp) and isinstance(n.op, ast.Mult):
             # T * d[..., None, :]   (scale the columns of T)   or   scalar * (T @ v)
-            if field(n.left) == "T" and isinstance(n.right, ast.Subscript) and (ast.get_source_segment(src, n.right) or "").replace(" ", "").endswith("[...,None,:]"):
+            if field_of(n.left) == "T" and isinstance(n.right, ast.Subscript) and (ast.get_source_segment(src, n.right) or "").replace(" ", "").endswith("[...,None,:]"):
                 return ("Tdiag", scal(n.right.value))
             try:
                 R = evalobj(n.right)
